@@ -120,6 +120,15 @@ Proof.
   apply andb_prop in Eb. destruct Eb as [E1 E2]. apply N.eqb_eq in E1, E2. subst. unfold Wq. rewrite E. reflexivity.
 Qed.
 
+Lemma Wq_wake_consumers cfg s c0 h0 c h : Wq (wake_consumers cfg s c0 h0) c h = Wq s c h.
+Proof.
+  unfold wake_consumers, wake_all_of_chan. destruct (cfg_rabbit cfg); [apply Wq_upd_chan_keep; reflexivity|].
+  destruct (get_conn _ c0) as [cn|]; [|apply Wq_upd_chan_keep; reflexivity].
+  match goal with |- Wq (fold_left ?F ?l ?st) c h = _ => assert (H : forall l0 st0, Wq (fold_left F l0 st0) c h = Wq st0 c h) end.
+  { induction l0 as [|x t IH]; intros st0; simpl; auto. rewrite IH. destruct (fst x =? h0); auto. apply Wq_upd_chan_keep; reflexivity. }
+  rewrite H. apply Wq_upd_chan_keep; reflexivity.
+Qed.
+
 (* settling one delivery frees exactly its own share of its channel's window, and touches no other channel's window *)
 Theorem settle_frees_own_share cfg s c h u c' h' :
   Wq (dec_qos_and_consume_next cfg s c h u) c' h' =
@@ -129,22 +138,14 @@ Theorem settle_frees_own_share cfg s c h u c' h' :
 Proof.
   unfold dec_qos_and_consume_next. destruct (get_chan s c h) as [ch|] eqn:Ech.
   - assert (W0 : Wq s c h = Some (ch_qos ch)) by (unfold Wq; rewrite Ech; reflexivity).
+    rewrite Wq_wake_consumers.
     destruct (find_consumer ch (u_ctag u)).
-    + destruct (wake_consumer s c h (u_ctag u)) as [s1 b] eqn:Ew. apply fst_pair in Ew. subst s1.
-      set (s1 := fst (wake_consumer s c h (u_ctag u))).
-      assert (W1 : forall c1 h1, Wq s1 c1 h1 = Wq s c1 h1) by (intros; apply Wq_wake).
-      assert (G1 : match get_chan s1 c h with Some ch1 => Some (ch_qos ch1) | None => None end = Some (ch_qos ch)) by (fold (Wq s1 c h); rewrite W1; exact W0).
-      destruct (cfg_rabbit cfg).
-      * rewrite Wq_upd_chan_keep by reflexivity. rewrite Wq_upd_chan.
-        destruct ((c' =? c) && (h' =? h)) eqn:Eb; [|apply W1].
-        rewrite W0. destruct (get_chan s1 c h) as [ch1|]; [|discriminate]. inversion G1 as [G]. cbn. rewrite G. reflexivity.
+    + destruct (cfg_rabbit cfg).
+      * rewrite Wq_upd_chan_keep by reflexivity. rewrite Wq_upd_chan. rewrite Ech, W0.
+        destruct ((c' =? c) && (h' =? h)); reflexivity.
       * destruct (get_conn _ c) as [cn|] eqn:Ec.
-        -- rewrite (Wq_set_conn_qos _ _ _ _ _ _ Ec). rewrite Wq_upd_chan.
-           destruct ((c' =? c) && (h' =? h)) eqn:Eb; [|apply W1].
-           rewrite W0. destruct (get_chan s1 c h) as [ch1|]; [|discriminate]. inversion G1 as [G]. cbn. rewrite G. reflexivity.
-        -- rewrite Wq_upd_chan.
-           destruct ((c' =? c) && (h' =? h)) eqn:Eb; [|apply W1].
-           rewrite W0. destruct (get_chan s1 c h) as [ch1|]; [|discriminate]. inversion G1 as [G]. cbn. rewrite G. reflexivity.
+        -- rewrite (Wq_set_conn_qos _ _ _ _ _ _ Ec). rewrite Wq_upd_chan. rewrite Ech, W0. destruct ((c' =? c) && (h' =? h)); reflexivity.
+        -- rewrite Wq_upd_chan. rewrite Ech, W0. destruct ((c' =? c) && (h' =? h)); reflexivity.
     + destruct (get_conn _ c) as [cn|] eqn:Ec.
       * rewrite (Wq_set_conn_qos _ _ _ _ _ _ Ec). rewrite Wq_upd_chan. rewrite Ech, W0. destruct ((c' =? c) && (h' =? h)); reflexivity.
       * rewrite Wq_upd_chan. rewrite Ech, W0. destruct ((c' =? c) && (h' =? h)); reflexivity.
